@@ -64,7 +64,7 @@ HdrViol(ev) ==
          THEN {IF host THEN "C10 payload checksum mismatch not reported exactly" ELSE "C11 opposite-endian payload mismatch detection differs"} ELSE {})
    \cup (IF ~acc \/ ~host THEN (IF (ev.drc # 999 /\ ev.drc # EBADHEADER) \/ (ev.rrc # 999 /\ ev.rrc # EBADHEADER)
                                 THEN {"C09 decode/reconstruct must refuse the header with the bad-header error"} ELSE {})
-         ELSE IF geom /\ ev.drc # 999 /\ ev.paysame = 1 /\ (ev.drc # 0 \/ ev.dmatch # 1 \/ ev.rrc # 0 \/ ev.rsame # 1)
+         ELSE IF geom /\ ev.drc # 999 /\ ev.paysame = 1 /\ (ev.drc # 0 \/ ev.dmatch # 1 \/ (ev.be # 0 /\ (ev.rrc # 0 \/ ev.rsame # 1)))
               THEN {"C09 acceptable host-order header refused by decode/reconstruct"} ELSE {})
    \cup (IF (ev.finv # 0) # inv /\ ~FragmentInvalidDontCare(InstOf(ev), h) THEN {"C12 fragment validation verdict"} ELSE {})
    \cup (IF ev.unch # 1 THEN {"C09 validation modified the fragment"} ELSE {})
